@@ -170,6 +170,22 @@ def check_lwsp(sn, g, res):
           res.fail("lwsp:preserve-changed", "%r -> %r" % (l[1], t))
       elif any(ch in t for ch in "\t\r\n") or "  " in t:
         res.fail("lwsp:default-not-collapsed", "%r -> %r" % (l[1], t))
+    # (e) a default-mode node that follows, on the same line, preserved text ending in XML white space does not begin with a space:
+    # TTML2 maps xml:space=default to XSL-FO white-space-collapse=true / white-space-treatment=ignore-if-surrounding-linefeed, under
+    # which a space that follows any white-space character (collapsing or not), or a preserved linefeed, is discarded
+    prev = None
+    for l in leaves:
+      if l[0] != "text":
+        prev = None
+        continue
+      if prev is not None and prev[3] and not l[3] and prev[1][-1:] in (" ", "\t", "\r", "\n") and nonspace(l[1]):
+        if l[1][:1] in (" ", "\t", "\r", "\n"):
+          res.label("lwsp:default-text-with-leading-space-after-preserved-white-space")
+        found = by_content.get((l[2], nonspace(l[1])))
+        if found and found[0].startswith(" "):
+          res.fail("lwsp:space-kept-after-preserved-white-space", "%r after preserved %r -> %r" % (l[1], prev[1], found[0]))
+      if l[1] != "":
+        prev = l
     from collections import Counter
     want_blank = Counter((l[2], l[1]) for l in texts if l[3] and l[1] != "" and not nonspace(l[1]))
     have_blank = Counter((l[2], l[1]) for l in gt if not nonspace(l[1]))
@@ -235,7 +251,36 @@ def cases(tier):
                    st.lists(st.fractions(0, 12, max_denominator=997), max_size=1))
 
 
+def mix_space(spec, picks):
+  """appends to some paragraphs a preserved text node ending in white space followed by a default-mode node beginning with white
+  space (and the reverse order): the boundary between the two white-space modes on one line, rare in unbiased documents"""
+  if spec["body"] is None:
+    return spec
+  k = 0
+  for n in gen_model.walk(spec["body"]):
+    if n["kind"] != "p" or k >= len(picks):
+      continue
+    tail, head, order = picks[k]
+    k += 1
+    def span(space, text, i):
+      return dict(kind="span", id="%s_mx%d" % (n["id"], i), begin=None, end=None, region=None, styles={}, anims=[], space=space, lang="",
+                  kids=[dict(kind="text", id=None, begin=None, end=None, region=None, styles={}, anims=[], kids=[], space=space, lang="", text=text)])
+    a = span("preserve", "w9%d1" % k + tail, 1)
+    b = span("default", head + "w9%d2  w9%d3 " % (k, k), 2)
+    n["kids"].extend([a, b] if order else [b, a])
+  return spec
+
+
+def cases_mixed(tier):
+  pick = st.tuples(st.sampled_from([" ", "\t", "\n", "\r", " \n", "  ", ""]), st.sampled_from([" ", "  ", "\n ", "\t", ""]), st.booleans())
+  small = gen_model.profile(style_density=(0, 2), max_nodes=14, br_styles=False)
+  return st.builds(lambda spec, extra, picks: {"spec": mix_space(spec, picks), "extra": extra}, gen_model.docspecs(small),
+                   st.lists(st.fractions(0, 12, max_denominator=997), max_size=1), st.lists(pick, min_size=1, max_size=3))
+
+
 PARTS = {
+  "mixed_space": Part("mixed_space", check, strategy=cases_mixed, n=(240, 16000), shrinker=SHRINK,
+                      required_labels=("lwsp:default-text-with-leading-space-after-preserved-white-space",)),
   "main": Part("main", check, strategy=cases, n=(400, 64000), shrinker=SHRINK,
                required_labels=("kind:ruby", "kind:br", "kind:rtc", "has-preserve", "snapshot:sequence")),
 }
